@@ -8,7 +8,7 @@ use crate::sim::driver::Sched;
 use crate::sim::world::*;
 use serde_json::json;
 
-const KINDS: [&str; 8] = ["absent", "garbage", "flipsig", "foreignkey", "wrongkeyid", "otherbody", "hashonly", "replay"];
+const KINDS: [&str; 9] = ["absent", "garbage", "flipsig", "foreignkey", "wrongkeyid", "otherbody", "hashonly", "otherheldkey", "replay"];
 
 fn etag_of(kind: &str, rng: &mut Rng) -> EtagSpec {
     match kind {
@@ -19,6 +19,7 @@ fn etag_of(kind: &str, rng: &mut Rng) -> EtagSpec {
         "wrongkeyid" => EtagSpec::WrongKeyId,
         "otherbody" => EtagSpec::OtherBody,
         "hashonly" => EtagSpec::HashOnly,
+        "otherheldkey" => EtagSpec::OtherHeldKey,
         _ => EtagSpec::Replay(rng.usize(8)),
     }
 }
